@@ -12,7 +12,7 @@ TECHNIQUE = 'abstract interpretation of the real mutator / update methods (world
 LEVEL_TEXT = ('Histories are unbounded; decided is history-independence for all mutator sequences up to length 2 (quick: 1 and selected 2) over {eccentricity, obliquity, spin, semi-major axis / orbital frequency / period, '
               'fixed Q, fixed dt, batched set_state} on the global-approximation (CPL and CTL) tidal model, for ALL numeric values of the state at once, using the repository\'s own methods for every step of the update cascade; '
               'together with two structural rules that cover the layered model: cached fields must be recomputed whenever a field they were computed from is recomputed, and stored closures must not capture loop variables.')
-LEVEL_NOTE = ('Trusted: front-end, interpreter (class table, properties, super()), the stub of configuration loading (attributes initialised as __init__/reinit do). Not decided: sequences longer than 2, array aliasing effects, '
+LEVEL_NOTE = ('Trusted: front-end, interpreter (class table, properties, super()), the harness-built object graph (state attributes named by the harness; configuration-dependent state of the global-approximation tides set by the class\'s own reinit from a configuration dictionary, other classes as their __init__ / reinit do). Not decided: sequences longer than 2, array aliasing effects, '
               'the numerical laws inside the rheology model holders of the layered model (uninterpreted pure functions; the holder classes themselves -- calculate, _calculate, live-argument getters, properties -- are interpreted in the second pass of R13.7), the cooling / radiogenic holders (stubs).')
 EXPLANATION = ('R13.3 history independence on the abstract object graph (single mutators and pairs) for CPL and CTL; R13.2 guard implication in update routines of the tidal classes; '
                'R13.4 flag plumbing: each mutator reaches the tides update with the flag of what it changed; R13.5 late-binding closures; R13.6 a fully updated world equals the functional API at that state; R13.7 history independence of a three-layer LayeredWorld incl. temperature changes; R13.8 per-layer heating equals the functional API on the inputs of that layer; R13.9 host-only dissipation: changes routed through the orbit, the orbiting body or the host leave the tidal quantities of the host and the cached da/dt, de/dt, dn/dt of the orbit equal to a fresh system. R13.10 two tidal worlds on one orbit updated by one OrbitBase.set_states call with per-world None entries: both worlds equal fresh worlds in their final states. The tidal object of every scenario is initialised by the class\'s own reinit from a configuration dictionary (CTL laws linear_simple and linear_simple_with_q).')
